@@ -7,7 +7,8 @@
 
 PROPS = {
     'C01': {
-        'units': ['engine', 'engine_build', 'depids', 'engine_loop'],
+        'units': ['engine', 'engine_build', 'depids', 'engine_loop', 'sqlite'],
+        'whole_units': ['sqlite', 'depids'],
         'design_ref': 'DESIGN.md section 4, C01 and appendix A (lemma L1)',
         'claim': 'the step contracts of lemma L1 on the real engine functions: scanRule decides never-built / signature / validity in that order and '
                  'declares a rule up to date without a scan only if nothing is recorded; demandRule stamps builtAt with the current epoch exactly '
@@ -15,15 +16,16 @@ PROPS = {
                  'computedAt to the current epoch exactly when the value changed or a change is forced; isComplete means complete in the current epoch; '
                  'the engine loop records, for every request a task makes, the input\'s key with the request\'s flags as a dependency of the REQUESTING rule, appended in '
                  'request order exactly once; on completion the discovered dependencies are appended in order, each is demanded in this build, and the completed '
-                 'record (complete in this epoch, all dependencies in) is what is handed to the database',
+                 'record (complete in this epoch, all dependencies in) is what is handed to the database; rests as a whole on kernels written for neighbouring properties (every property-level clause of these units counts here too): the stored results are read back as written (sqlite), the dependency list container (depids)',
         'not_decided': ['the induction over builds and scan order (lemma L1, paper)', 'the engine loop executeTasks (dependency recording, provideValue)',
                         'client Rule/Task code (assumed deterministic, as the property does)'],
     },
     'C02': {
         'units': ['engine', 'sqlite', 'engine_loop', 'depids'],
+        'whole_units': ['depids'],
         'design_ref': 'DESIGN.md section 4, C02',
         'claim': 'every reason reported to the delegate is true of the rule record at the moment of the report (precondition of the delegate stub at '
-                 'every call site under contract); a task is created only from NeedsToRun and the rule leaves that state; an unchanged value keeps computedAt',
+                 'every call site under contract); a task is created only from NeedsToRun and the rule leaves that state; an unchanged value keeps computedAt; rests as a whole on kernels written for neighbouring properties (every property-level clause of these units counts here too): the dependency list container (depids)',
         'not_decided': ['the shadow-epoch history argument of the property (every step of it is proved, the induction is lemma L1)', 'breakCycle (Forced)'],
     },
     'C03': {
@@ -44,19 +46,21 @@ PROPS = {
                         'getKeyIDForID is used inside lookupRuleResult through an assumed functional view (its cache/db consistency is not proved)'],
     },
     'C04': {
-        'units': ['engine_build', 'sqlite_open', 'sqlite'],
+        'units': ['engine_build', 'sqlite_open', 'sqlite', 'ninja_task_step'],
+        'whole_units': ['ninja_task_step'],
         'design_ref': 'DESIGN.md section 4, C04',
         'claim': 'every commit point of a build is consistent: buildStarted precedes and buildComplete follows all database work of a build, the epoch '
                  'is advanced before any task runs, and before the transaction commits the new epoch has been handed to the database in the same '
                  'transaction (so the stored epoch is never smaller than a stored result\'s epochs); nothing is left open; open() creates the schema '
                  'inside one BEGIN EXCLUSIVE .. END transaction, closes the connection when that fails, deletes a database only on a version mismatch '
                  'with recreation allowed, and never issues a PRAGMA that switches journaling or synchronous writes off; buildStarted succeeds only if BEGIN EXCLUSIVE '
-                 'did; buildComplete commits with END on the open connection and then closes it; setRuleResult executes no statement besides the prepared insert (no END / BEGIN: the whole build stays one transaction)',
+                 'did; buildComplete commits with END on the open connection and then closes it; setRuleResult executes no statement besides the prepared insert (no END / BEGIN: the whole build stays one transaction); rests as a whole on kernels written for neighbouring properties (every property-level clause of these units counts here too): the update-without-running decision of a Ninja command, which must not adopt an output left behind by an interrupted build (ninja_task_step)',
         'not_decided': ['the enumeration of kill points, journal recovery and fsync (SQLite atomic commit is assumed)',
                         'key table contents (U-db units)', 'that continued builds return clean results (lemma L1)'],
     },
     'C05': {
         'units': ['engine', 'engine_build', 'engine_cancel', 'serialqueue', 'lanequeue', 'engine_loop', 'procgroup', 'engine_canceldel'],
+        'whole_units': ['engine_build'],
         'design_ref': 'DESIGN.md section 4, C05',
         'claim': 'build() returns the empty value whenever the task loop failed, the build was already cancelled or the database could not be locked; '
                  'the execution queue is released under its mutex on every path, the engine is never left busy, resetForBuild clears the flag under '
@@ -65,12 +69,13 @@ PROPS = {
                  'being scanned is Incomplete, a rule cancelled in progress reads as never built (so the next scan re-runs it), no result is written to '
                  'the database, both mutexes released (partial correctness of the drain loop); the execution queues never drop a job (also after '
                  'cancellation) and answer a process request made after cancellation exactly once with a cancelled result; cancelBuild notifies the cancellation delegates once, sets the flag and asks the current execution queue to cancel its jobs '
-                 'only while executionQueueMutex is held (build() releases the queue under the same mutex); ProcessGroup::signalAll signals every process group of the group once under its mutex - an interrupt is withheld only from processes that cannot be interrupted safely, any other signal (the kill after the grace period) reaches all; addCancellationDelegate reads the cancelled flag and inserts the delegate while it holds executionQueueMutex (so a delegate registering during cancelBuild is either walked or told at once, exactly once), removeCancellationDelegate erases under the same mutex',
+                 'only while executionQueueMutex is held (build() releases the queue under the same mutex); ProcessGroup::signalAll signals every process group of the group once under its mutex - an interrupt is withheld only from processes that cannot be interrupted safely, any other signal (the kill after the grace period) reaches all; addCancellationDelegate reads the cancelled flag and inserts the delegate while it holds executionQueueMutex (so a delegate registering during cancelBuild is either walked or told at once, exactly once), removeCancellationDelegate erases under the same mutex; rests as a whole on kernels written for neighbouring properties (every property-level clause of these units counts here too): build() as a whole: transaction bracket and epoch hand-over on the failing paths (engine_build)',
         'not_decided': ['delivery from foreign threads, hangs (termination of the drain loop depends on other threads reporting)',
                         'the BuildSystemFrontend / lane queue path'],
     },
     'C06': {
-        'units': ['engine', 'engine_build', 'engine_cancel', 'engine_pool', 'engine_loop', 'engine_taskapi', 'engine_canceldel'],
+        'units': ['engine', 'engine_build', 'engine_cancel', 'engine_pool', 'engine_loop', 'engine_taskapi', 'engine_canceldel', 'extcmd_run'],
+        'whole_units': ['extcmd_run'],
         'design_ref': 'DESIGN.md section 4, C06',
         'claim': 'task protocol automaton on the Task stubs (start once, prior value once after start and only for the same rule definition), ready queue '
                  'receives a task exactly when its wait count reaches zero, finished tasks are queued under finishedTaskInfosMutex and the loop is notified '
@@ -80,12 +85,13 @@ PROPS = {
                  'loop body as one step: requests are taken first in first out; a request whose input is still being scanned is parked unchanged; a value request '
                  'is delivered exactly once (provideValue with the request\'s id, the input\'s key and current value, before inputs-available, only when the input is '
                  'complete in this build or its prior value was asked for), a must-follow request never; inputs-available is delivered once, to the front of the '
-                 'ready queue, with nothing outstanding; a finished task wakes every waiter in order and leaves the task table under its mutex; a request made through TaskInterface is queued exactly once under the queue\'s mutex and counted in the task\'s wait count, reserved ids are refused, must-follow is an order-only request under the reserved id, a discovered dependency is accepted only while computing',
+                 'ready queue, with nothing outstanding; a finished task wakes every waiter in order and leaves the task table under its mutex; a request made through TaskInterface is queued exactly once under the queue\'s mutex and counted in the task\'s wait count, reserved ids are refused, must-follow is an order-only request under the reserved id, a discovered dependency is accepted only while computing; rests as a whole on kernels written for neighbouring properties (every property-level clause of these units counts here too): the ExternalCommand task callbacks (extcmd_run)',
         'not_decided': ['that all completion orders give the same values (a whole-build, all-schedules statement)', 'data-race freedom in general, deadlock',
                         'the scan-request phase of executeTasks as a loop (its step is proved in unit engine); composition of the steps over a whole build'],
     },
     'C07': {
-        'units': ['engine_cycle', 'engine_cancel', 'engine_findcycle', 'engine_gather', 'depids'],
+        'units': ['engine_cycle', 'engine_cancel', 'engine_findcycle', 'engine_gather', 'depids', 'engine_loop', 'engine'],
+        'whole_units': ['engine_loop', 'engine', 'depids'],
         'design_ref': 'DESIGN.md section 4, C07',
         'claim': 'trigger, search and reporting: the engine looks for a cycle only when a whole round of its loop did nothing, no task is still computing '
                  '(the blocking step before it forces another round whenever completions are owed) and tasks are nevertheless pending; it never '
@@ -96,18 +102,19 @@ PROPS = {
                  'the inversion turns every edge into exactly one predecessor entry, and one iteration of the depth-first search keeps the invariant '
                  'that the path list mirrors the stack, starts at the requested rule, follows predecessor entries only and holds pairwise distinct rules - '
                  'so the list it stops with starts at the requested rule, every consecutive pair is a wait-for edge, and its last rule repeats an earlier one (graphs of at most 4 rules with at most 3 predecessors each); '
-                 'cleanSingleUseDependencies removes exactly the single-use entries of a dependency list (at most 4 entries), so a single-use request of an earlier build is never a wait-for edge of a later one',
+                 'cleanSingleUseDependencies removes exactly the single-use entries of a dependency list (at most 4 entries), so a single-use request of an earlier build is never a wait-for edge of a later one; rests as a whole on kernels written for neighbouring properties (every property-level clause of these units counts here too): the request / scan steps that create the wait-for edges (engine_loop, engine), the dependency list container (depids)',
         'not_decided': ['the visited-set worklist around the gathering steps and the sort of the predecessor lists; the composition of the steps is on paper',
                         'the cycle-breaking heuristics (breakCycle)', 'liveness: that a real cycle always stalls the loop; termination of the search (finite simple paths)'],
     },
     'C08': {
-        'units': ['extcmd', 'fileinfo', 'extcmd_run', 'extcmd_result', 'shelldeps_dispatch', 'nodetasks', 'archive', 'toolvalid', 'localfs'],
+        'units': ['extcmd', 'fileinfo', 'extcmd_run', 'extcmd_result', 'shelldeps_dispatch', 'nodetasks', 'archive', 'toolvalid', 'localfs', 'engine_build', 'shelldeps'],
+        'whole_units': ['engine_build', 'shelldeps'],
         'design_ref': 'DESIGN.md section 4, C08',
         'claim': 'kernel only: ExternalCommand::isResultValid declares a stored result valid only if every non-virtual output still matches what the '
                  'command produced (existence only for mutated outputs) and never for a non-successful stored result; FileInfo ==/!= and '
                  'getInfoForPath (shared with C13) decide "has this file changed"; computeCommandResult records one info per output in output order (the epoch for a command-timestamp node, the all-zero record for a virtual node, the current file info otherwise; at most 4 outputs named), '
                  'canUpdateIfNewerWithResult allows an update without running only with allow-modified-outputs and every recorded output existing; getResultForOutput gives output k the k-th recorded info (existing input with exactly that info / missing output / virtual input); '
-                 'FileInputNodeTask: a source file value is valid exactly when existence and file information are unchanged, and building it records the current information once; ProducedNodeTask hands its producing command exactly this node and the delivered value; a command that left the description builds to an invalid value with the change forced; a target is re-evaluated in every build; CommandTask forwards exactly the delivered values and input ids to its command; the deps-file dispatch of the shell command (see C11); the archive tool removes the OLD ARCHIVE (archiveName, with ignore-missing) before re-creating it and fails the command when that removal fails; LocalFileSystem::createSymlink reports success exactly when the one symlink(2) call (contents, link path) created the link - never for an entry that was already there (the symlink tool removes a stale entry and retries on that failure)',
+                 'FileInputNodeTask: a source file value is valid exactly when existence and file information are unchanged, and building it records the current information once; ProducedNodeTask hands its producing command exactly this node and the delivered value; a command that left the description builds to an invalid value with the change forced; a target is re-evaluated in every build; CommandTask forwards exactly the delivered values and input ids to its command; the deps-file dispatch of the shell command (see C11); the archive tool removes the OLD ARCHIVE (archiveName, with ignore-missing) before re-creating it and fails the command when that removal fails; LocalFileSystem::createSymlink reports success exactly when the one symlink(2) call (contents, link path) created the link - never for an entry that was already there (the symlink tool removes a stale entry and retries on that failure); rests as a whole on kernels written for neighbouring properties (every property-level clause of these units counts here too): the epoch hand-over of build() (engine_build), the depfile callbacks (shelldeps)',
         'not_decided': ['on-disk equivalence with a clean build (everything the title says)', 'the per-key-kind rule dispatch in lookupRule (closures)',
                         'StatTask / ProducedDirectoryNodeTask, the start / inputsAvailable halves of TargetTask and CommandTask (closures)'],
     },
@@ -121,12 +128,13 @@ PROPS = {
                         'parallel timing', 'the Windows branch of Subprocess.cpp (not compiled here)'],
     },
     'C09': {
-        'units': ['signature', 'engine', 'extcmd', 'extcmd_result', 'sigsplit', 'sigsplit_shell', 'swiftsig'],
+        'units': ['signature', 'engine', 'extcmd', 'extcmd_result', 'sigsplit', 'sigsplit_shell', 'swiftsig', 'toolvalid'],
+        'whole_units': ['toolvalid'],
         'design_ref': 'DESIGN.md section 4, C09',
         'claim': 'ShellCommand::getSignature feeds every argument, both halves of every environment entry, every deps path and the three scalar '
                  'settings exactly once (or only the explicit signature when one is given), never hands out the null signature, caches what it '
                  'returns, and no value reaches combine(bool) through a narrowing conversion; SwiftCompilerShellCommand::getSignature feeds, after the common part, executable, module name, module aliases, module output path, sources, objects, import paths, temps path, other arguments and is-library, each exactly once; the engine re-runs on signature inequality before '
-                 'validity and offers a prior value only for the same signature; BOUNDED (not counted, relational): two definitions that differ only in where a list ends (inputs/outputs, arguments/deps paths) feed different sequences into the hash chain',
+                 'validity and offers a prior value only for the same signature; BOUNDED (not counted, relational): two definitions that differ only in where a list ends (inputs/outputs, arguments/deps paths) feed different sequences into the hash chain; rests as a whole on kernels written for neighbouring properties (every property-level clause of these units counts here too): validity of mkdir / symlink results, which decides null rebuilds of those tools (toolvalid)',
         'not_decided': ['collision freedom of the 64-bit hash (hash_combine is uninterpreted)', 'list boundaries in the chain: inputs/outputs/args/env/deps are '
                         'chained without delimiters (candidate finding F9, ExternalCommand::getSignature is not under contract)', 'the null-build claim end to end'],
     },
@@ -143,13 +151,13 @@ PROPS = {
         'not_decided': ['that a later change to P re-executes the command (paper lemma L1)', 'the contents of the file system (a ghost answer per path)'],
     },
     'C12': {
-        'units': ['dirtree', 'dirfilter', 'platmatch', 'dirinput'],
+        'units': ['dirtree', 'dirfilter', 'platmatch', 'dirinput', 'dircontents'],
         'design_ref': 'DESIGN.md section 4, C12 (lemma L2 on paper)',
         'claim': 'kernel: a directory-tree (structure) signature task requests the (filtered) contents key of its path, one node key per listed name in '
                  'order and, for every child that is an existing directory, exactly one sub-tree signature key for path/name WITH THE SAME FILTERS; stores '
                  'each value in the slot of its id; feeds the hash chain with the path, the directory value (structure: only its mode) and for every child '
                  'in order its value (structure: its name and its mode) and its sub-signature or the nil marker; DirectoryContentsTask::isResultValid '
-                 'invalidates on existence, type, stat or listing changes (length and names in order); getFilteredContents lists an entry exactly once iff no pattern matches its name, independently of the other entries (at most 4 entries / 3 patterns named in the model), and sorts the listing; sys::filenameMatch asks fnmatch(3) about pattern and name in that order with no flags (case sensitive) and maps 0 / FNM_NOMATCH / other to match / no match / error; DirectoryInputNodeTask: the must-scan-after paths are requested first, as nodes, in order, under input ids 1, 2, ... (0 is reserved), the tree signature of the node directory (trailing slash dropped, node exclusion patterns) is requested under id 0 at once when there are none and otherwise exactly when the last of them arrived, and the task value is the signature it was given',
+                 'invalidates on existence, type, stat or listing changes (length and names in order); getFilteredContents lists an entry exactly once iff no pattern matches its name, independently of the other entries (at most 4 entries / 3 patterns named in the model), and sorts the listing; sys::filenameMatch asks fnmatch(3) about pattern and name in that order with no flags (case sensitive) and maps 0 / FNM_NOMATCH / other to match / no match / error; DirectoryInputNodeTask: the must-scan-after paths are requested first, as nodes, in order, under input ids 1, 2, ... (0 is reserved), the tree signature of the node directory (trailing slash dropped, node exclusion patterns) is requested under id 0 at once when there are none and otherwise exactly when the last of them arrived, and the task value is the signature it was given; DirectoryContentsTask::getContents: every entry the iteration reaches is listed exactly once, except a symbolic link whose resolved target is a prefix of the listed path (a link back to a parent); the listing is sorted',
         'not_decided': ['real directory iteration, symlinks, fnmatch filtering (getFilteredContents not under contract)', 'that a deep edit reaches the root '
                         '(lemma L2, induction on depth, paper)', 'hash collision freedom', 'names are compared by identity (string equality is assumed)'],
     },
@@ -194,24 +202,25 @@ PROPS = {
                         'spawnProcess, pipe draining, process groups, the kill-after-timeout thread', 'released (background) lanes'],
     },
     'C17': {
-        'units': ['ninja_lex', 'ninja_scope', 'shellesc', 'ninja_eval', 'ninja_parser', 'ninja_include', 'ninja_builddecl'],
+        'units': ['ninja_lex', 'ninja_scope', 'shellesc', 'ninja_eval', 'ninja_parser', 'ninja_include', 'ninja_builddecl', 'ninja_scopebind'],
         'design_ref': 'DESIGN.md section 4, C17',
         'claim': 'Ninja lexer: a keyword kind is produced exactly when the token bytes are the whole keyword, every byte value '
                  '0x00-0xFF is returned as itself (end of file only at the true end), identifier-specific mode never yields keywords; '
                  'lookupBuildParameterImpl: a build-level binding shadows everything whatever its value, else the rule-level template is evaluated in the '
                  'context of this build statement, else the enclosing scope is asked under the same name; $in/$in_newline are the explicit inputs '
                  'separated by space/newline, $out all outputs, shell-quoted exactly when evaluating "command"; BOUNDED (not counted): '
-                 'a shell-escaped path of up to 3 (quick) bytes, read by a model of POSIX sh word syntax, is exactly one word equal to the path; evalString in seven steps (literal run, piece, `$` at the end, `$`+newline, single-character escapes, ${name}, $name): every byte read lies inside the string, every step that does not stop the scan advances, a literal piece is a maximal `$`-free run, only `$ ` `$:` `$$` are character escapes, the name looked up is exactly the text between `${` and `}` (identifier characters) or the maximal run of simple identifier characters after `$`; include / subninja (actOnIncludeDecl): the path expression is evaluated in the current scope, `include` parses the file in the current scope, `subninja` in one new scope whose parent is the current scope; the loader actions (ninja_builddecl): a build statement gets one node per output / input token in token order (the node of that token path evaluated in the current scope, against the working directory), the rule its name resolves to in the current scope (unknown: diagnostic + phony rule) and exactly the explicit / implicit counts the parser determined; rule variables are stored UNEVALUATED (lazy), build-statement bindings and file-level bindings are evaluated at once in the current scope and stored under their name; actOnEndBuildDecl stores each attribute (command, description, depfile, response file and its content, pool, generator / restat flags) from the build parameter of THAT name looked up for this statement, derives the deps style from `deps` / `depfile` and reports the inconsistent combinations; parser: the token that follows a Newline is always lexed in mode None (in any other mode a keyword comes back as an identifier)',
+                 'a shell-escaped path of up to 3 (quick) bytes, read by a model of POSIX sh word syntax, is exactly one word equal to the path; evalString in seven steps (literal run, piece, `$` at the end, `$`+newline, single-character escapes, ${name}, $name): every byte read lies inside the string, every step that does not stop the scan advances, a literal piece is a maximal `$`-free run, only `$ ` `$:` `$$` are character escapes, the name looked up is exactly the text between `${` and `}` (identifier characters) or the maximal run of simple identifier characters after `$`; include / subninja (actOnIncludeDecl): the path expression is evaluated in the current scope, `include` parses the file in the current scope, `subninja` in one new scope whose parent is the current scope; the loader actions (ninja_builddecl): a build statement gets one node per output / input token in token order (the node of that token path evaluated in the current scope, against the working directory), the rule its name resolves to in the current scope (unknown: diagnostic + phony rule) and exactly the explicit / implicit counts the parser determined; rule variables are stored UNEVALUATED (lazy), build-statement bindings and file-level bindings are evaluated at once in the current scope and stored under their name; actOnEndBuildDecl stores each attribute (command, description, depfile, response file and its content, pool, generator / restat flags) from the build parameter of THAT name looked up for this statement, derives the deps style from `deps` / `depfile` and reports the inconsistent combinations; parser: the token that follows a Newline is always lexed in mode None (in any other mode a keyword comes back as an identifier); Scope::lookupBinding: the innermost scope that binds a name wins whatever the value is (an empty binding shadows), a miss is looked up once in the parent scope under the same name, without a parent the answer is empty',
         'not_decided': ['agreement of variable evaluation with Ninja itself (needs Ninja as oracle)', 'the composition of the evalString steps over a whole string', 'that the parser accepts exactly the Ninja grammar and counts explicit / implicit inputs as Ninja does (only termination, token consumption and lexer mode are decided)', 'pool and default declarations'],
     },
     'C18': {
-        'units': ['ninja_valid', 'ninjadeps', 'ninja_task', 'ninja_task_step'],
+        'units': ['ninja_valid', 'ninjadeps', 'ninja_task', 'ninja_task_step', 'engine', 'subprocess', 'fileinfo', 'ninja_scope'],
+        'whole_units': ['engine', 'subprocess', 'fileinfo', 'ninja_scope'],
         'design_ref': 'DESIGN.md section 4, C18',
         'claim': 'validity predicates only: a Ninja command result is valid only if it was a success, the command hash is unchanged (generator commands '
                  'excepted: "a changed command line re-runs its command") and every output exists with unchanged file information; an input is valid exactly '
                  'when it was recorded as existing, still exists and is unchanged; a select-composite result exactly when successful with an unchanged hash; '
                  'the depfile callback records the unescaped word normalised against the working directory (once, or not at all when normalisation fails); the command task: an input value that is neither an existing file nor a successful command makes the command skip (a missing one is reported once), a usable input never un-skips it and its time stamp is folded into the newest input time, update-if-newer is never switched back on, the prior command hash is taken only from a successful stored result, and a command is brought up to date WITHOUT running only if every output exists and is not older (strict mode: strictly newer) than the newest input; two steps of inputsAvailable: a phony command completes with the current state of its outputs and forces the change through exactly when an output is missing; '
-                 'the update-without-running path is taken exactly when it is still allowed, the command is a generator or its command hash equals the hash of the stored successful result (a changed command line re-runs its command), and canUpdateIfNewerWithResult agrees - then it completes once with the recomputed result and counts one updated command; after a successful process, a failure to take in the discovered dependencies counts one failed command and completes once, forced, with the failed-command value (and the dependencies are processed exactly once)',
+                 'the update-without-running path is taken exactly when it is still allowed, the command is a generator or its command hash equals the hash of the stored successful result (a changed command line re-runs its command), and canUpdateIfNewerWithResult agrees - then it completes once with the recomputed result and counts one updated command; after a successful process, a failure to take in the discovered dependencies counts one failed command and completes once, forced, with the failed-command value (and the dependencies are processed exactly once); rests as a whole on kernels written for neighbouring properties (every property-level clause of these units counts here too): the scan decision of the engine (engine), the wait-status classification (subprocess), file information (fileinfo), variable lookup (ninja_scope)',
         'not_decided': ['convergence to the clean-build state, null rebuilds, order-only handling, restat/generator/pool semantics, failure '
                         'propagation (closures over the build context)', 'decoding of the stored value (assumed pure)'],
     },
